@@ -6,17 +6,29 @@ repo = sys.argv[2] if len(sys.argv) > 2 else "/repo"
 cache = "/tmp/nbcache_baseline_" + str(os.getpid())
 env = dict(os.environ, NUMBA_CACHE_DIR=cache, PYTHONPATH=repo)
 env.pop("PYXEM_ORIX_VERIF", None)
-subprocess.run(["/venv/bin/python", "-m", "pytest", "-q", "-p", "no:cacheprovider", "--timeout=900",
-                "--continue-on-collection-errors", "-n", "8", f"--junitxml={out}"], cwd=repo, env=env,
-               stdout=subprocess.DEVNULL, stderr=subprocess.DEVNULL)
-res = {}
-for tc in ET.parse(out).getroot().iter("testcase"):
-    name = f"{tc.get('classname')}::{tc.get('name')}"
-    bad = any(c.tag in ("failure", "error") for c in tc)
-    skipped = any(c.tag == "skipped" for c in tc)
-    res[name] = "fail" if bad else ("skip" if skipped else "pass")
 sp = json.load(open("/root/.vp/BASELINE.json"))["stable_pass"]
+
+
+def one_run():
+    subprocess.run(["/venv/bin/python", "-m", "pytest", "-q", "-p", "no:cacheprovider", "--timeout=900",
+                    "--continue-on-collection-errors", "-n", "8", f"--junitxml={out}"], cwd=repo, env=env,
+                   stdout=subprocess.DEVNULL, stderr=subprocess.DEVNULL)
+    res = {}
+    for tc in ET.parse(out).getroot().iter("testcase"):
+        name = f"{tc.get('classname')}::{tc.get('name')}"
+        bad = any(c.tag in ("failure", "error") for c in tc)
+        skipped = any(c.tag == "skipped" for c in tc)
+        res[name] = "fail" if bad else ("skip" if skipped else "pass")
+    return res
+
+
+res = one_run()
 notpass = [t for t in sp if res.get(t) != "pass"]
+# the suite contains tests on unseeded random input (e.g. test_from_euler_to_matrix_from_matrix fails ~1 % of runs on
+# the unchanged tree): a test only counts as not passing if it fails in two runs
+if notpass and len(notpass) <= 10:
+    res2 = one_run()
+    notpass = [t for t in notpass if res2.get(t) != "pass"]
 print(f"stable_pass={len(sp)} passing_now={len(sp) - len(notpass)}")
 for t in notpass[:40]:
     print("  NOT PASSING:", t, res.get(t))
